@@ -5,7 +5,7 @@ ids=${*:-C19 C14 C05 C12 C01 C17 C09 C16 C03 C04 C06 C07 C08 C10 C11 C13 C15 C18
 cd "$(dirname "$0")/.." || exit 2
 for p in $ids; do
   s=$(date +%s)
-  out=$(VERIF_NO_EVIDENCE=1 VERIF_REPLAY_DIR=sweep-replays ./check $p --tier thorough 2>&1); rc=$?
+  out=$(VERIF_NO_EVIDENCE=1 VERIF_REPLAY_DIR=sweep-replays ./check $p --tier thorough ${VERIF_SCALE:+--scale $VERIF_SCALE} 2>&1); rc=$?
   echo "THOROUGH $p exit=$rc $(( $(date +%s) - s ))s"
   if [ $rc -ne 0 ]; then echo "$out" | grep -E "^  \[|VIOLATION|INCONCLUSIVE|Error" | head -8 | cut -c1-500; fi
 done
